@@ -29,6 +29,9 @@ def build_arg(name, td, inputs):
         if name in inputs and inputs[name] is None:
             return None
         return build_arg(name, td.args[0], inputs)
+    if k == "list" and td.args[1] is None:
+        v = inputs.get(name)
+        return list(v["intlist"] or []) if isinstance(v, dict) and "intlist" in v else []
     if k == "list":
         n = inputs.get(name + "#len", 0)
         return [build_arg(f"{name}[{i}]", td.args[0], inputs) for i in range(n)]
@@ -165,6 +168,8 @@ def run_one(req):
     import inspect
     for pname, p in inspect.signature(f).parameters.items():
         args.append(build_arg(pname, p.annotation, inputs))
+    ps._INPUTS = inputs
+    ps._BUILD_ARG = build_arg
     rec = ps.start_recording()
     ans = {"labels": [], "escaped": None, "precondition_false": False, "args": [repr(a)[:300] for a in args]}
     try:
